@@ -121,6 +121,11 @@ def rules(ctx: Ctx) -> None:
         if pls:
             fold, pair_loops = m, pls
     if fold is None or len(pair_loops) != 1:
+        if fold is None:
+            bd = SH.methods.get("_build_digraph") or next(iter(SH.methods.values()))
+            ctx.ob("R04.3", "repair:one-loop-over-the-recorded-pairs", False, bd.loc(),
+                   "no loop runs over the recorded (unresolved column, target column) pairs: every recorded pair must be repaired - a collection keyed by the column alone "
+                   "keeps one target per column and the other chains are never completed")
         raise AnalysisError("repair loop over (unresolved column, target) pairs not found")
     ctx.touched(fold)
     PL = pair_loops[0]
